@@ -4,7 +4,8 @@
 range).  Template source, string values and format strings are attacker-chosen text, so every offset used to slice
 them must *come from the text*: a search result (`find`, `memstr`, `char_indices`, `position` ..), a length, a span
 / cursor offset, a sum of those.  What cannot come from the text is an integer *literal* (`[1..]`, `split_at(4)`,
-`len - 1`) or a quotient/remainder: such a component is only sound when the skipped bytes are known to be ASCII.
+`len - 1`), a quotient/remainder, or a *character* count (a span column): such a component is only sound when the
+skipped bytes are known to be ASCII.
 
 Rule: for every str slicing site of minijinja / minijinja-contrib, every literal (>= 1) or `%`,`/`,`*` component of
 the offset expression needs
@@ -77,6 +78,18 @@ def literal_components(f, op, depth=0, seen=None):
     """[(what, origin, partner operand)] literal / quotient components of an offset expression"""
     out = []
     for o in flow.origins(f, op):
+        if any(("col" in x.lower().split("_") or x.lower().endswith("_col") or x.lower() in ("col", "column", "line"))
+               for x in o.proj if isinstance(x, str)):
+            # a character column / line number is a count of characters, not a byte offset
+            out.append(("character column `%s`" % ".".join(x for x in o.proj if isinstance(x, str)), o, None))
+            continue
+        if o.kind == "call" and depth < 4 and o.call.name.split("::")[-1] in ("min", "max", "saturating_sub", "saturating_add", "clamp"):
+            for a in o.call.args:
+                out += literal_components(f, a, depth + 1)
+            continue
+        if o.kind == "cast" and depth < 4:
+            out += literal_components(f, o.rv["op"], depth + 1)
+            continue
         if o.kind == "const":
             v = o.const.get("int")
             if v is not None and int(v) >= 1 and depth > 0:
@@ -196,10 +209,12 @@ def finder_evidence(f, partner):
     return None
 
 
-def check_str_slices(ctx, prog):
+def check_str_slices(ctx, prog, rule="C01.P7.slice-offset-comes-from-the-text", files=None, floor=40, tag=""):
     n = 0
     for f in prog.fns.values():
         if f.crate not in ("minijinja", "minijinja_contrib"):
+            continue
+        if files is not None and not f.loc.f.endswith(files):
             continue
         for c in f.calls():
             if c.name not in SLICERS:
@@ -227,5 +242,7 @@ def check_str_slices(ctx, prog):
                 "(no starts_with/ends_with/strip_prefix with an ASCII constant, is_char_boundary or checked str::get "
                 "on every path to the site; not a reviewed site): a multi-byte character at that position panics"
                 % ", ".join(sorted(set(bad))))
-            ctx.ob("C01.P7.slice-offset-comes-from-the-text", key, not bad, msg, f.where(c.bb))
-    ctx.floor("C01.P7 str slicing sites", n, 40)
+            ctx.ob(rule, tag + key, not bad, msg, f.where(c.bb))
+    if floor:
+        ctx.floor("%s str slicing sites%s" % (rule.split(".")[1], tag), n, floor)
+    return n
